@@ -11,7 +11,8 @@ from gen_prog import make_sessions
 PROP = "C08"
 LEVEL = "other"
 MODULE = "PropC08"
-THEOREMS = ["C08_error_leaves_clean_machine", "C08_error_keeps_globals", "C08_error_keeps_the_program", "C08_run_error_resets"]
+THEOREMS = ["C08_error_leaves_clean_machine", "C08_error_keeps_globals", "C08_error_keeps_the_program", "C08_run_error_resets",
+            "C08_simple_failure_is_invisible", "C08_simple_relocation", "C08_simple_sessions"]
 
 HELPERS = [
     "bz = (n) -> if n <= 0 1/0 else 1 + bz(n - 1)",
